@@ -30,6 +30,13 @@ pub enum Sess {
     /// HTTP/2 session with `n` open tunnels (each downloaded `chunk` bytes); both ends finish
     /// the tunnels `end_ms` after the submission
     H2Tunnels { n: u8, chunk: u16, end_ms: u16 },
+    /// HTTP/2 session after `n` health checks whose client sends one more request `late_ms` after
+    /// the submission (it has not seen the GOAWAY yet, or only just) and waits for its answer
+    H2LateRequest { n: u8, late_ms: u8 },
+    /// HTTP/2 session of a frame-level client that answers the endpoint's GOAWAY + PING with a new
+    /// request (HEADERS, END_STREAM) and only then with the PING acknowledgement: a request in flight
+    /// while the endpoint announces its shutdown
+    H2RawLate,
     /// HTTP/1.1 connection on the speedtest / reverse-proxy channel without a request
     SpeedIdle,
     RpIdle,
@@ -288,7 +295,91 @@ async fn client(
             seen.intact &= got == pattern(0, pre);
             let _ = peer.to_client.send(PeerMsg::Eof);
         }
-        Sess::H2Idle(n) | Sess::H2Tunnels { n, .. } => {
+        Sess::H2RawLate => {
+            let mut io = io;
+            let frame = |ty: u8, flags: u8, stream: u32, payload: &[u8]| -> Vec<u8> {
+                let mut f = vec![(payload.len() >> 16) as u8, (payload.len() >> 8) as u8, payload.len() as u8, ty, flags];
+                f.extend_from_slice(&stream.to_be_bytes());
+                f.extend_from_slice(payload);
+                f
+            };
+            let mut hello = b"PRI * HTTP/2.0\r\n\r\nSM\r\n\r\n".to_vec();
+            hello.extend_from_slice(&frame(4, 0, 0, &[]));
+            if let Err(e) = io.write_all(&hello).await {
+                seen.error = Some(e.to_string());
+                return seen;
+            }
+            // frames as they come: (type, flags, stream, payload)
+            async fn next_frame(io: &mut tokio::io::DuplexStream, limit: Duration) -> Option<(u8, u8, u32, Vec<u8>)> {
+                let mut head = [0u8; 9];
+                tokio::time::timeout(limit, io.read_exact(&mut head)).await.ok()?.ok()?;
+                let len = ((head[0] as usize) << 16) | ((head[1] as usize) << 8) | head[2] as usize;
+                let mut payload = vec![0u8; len];
+                tokio::time::timeout(limit, io.read_exact(&mut payload)).await.ok()?.ok()?;
+                Some((head[3], head[4], u32::from_be_bytes([head[5] & 0x7f, head[6], head[7], head[8]]), payload))
+            }
+            // the endpoint's SETTINGS, acknowledged
+            loop {
+                match next_frame(&mut io, Duration::from_secs(5)).await {
+                    Some((4, 0, 0, _)) => {
+                        let _ = io.write_all(&frame(4, 1, 0, &[])).await;
+                    }
+                    Some((4, 1, 0, _)) => break,
+                    Some(_) => {}
+                    None => {
+                        seen.error = Some("no SETTINGS exchange".into());
+                        return seen;
+                    }
+                }
+            }
+            tokio::time::sleep(Duration::from_millis(5)).await;
+            let _ = ready.send(()).await;
+            wait_go(&mut go).await;
+            // GOAWAY, then PING: answer with a request first, the acknowledgement second
+            let mut goaways = 0;
+            let mut ping = None;
+            while ping.is_none() {
+                match next_frame(&mut io, Duration::from_secs(5)).await {
+                    Some((7, _, _, _)) => goaways += 1,
+                    Some((6, 0, 0, p)) => ping = Some(p),
+                    Some(_) => {}
+                    None => break,
+                }
+            }
+            if let Some(p) = ping {
+                // HPACK, literal fields without indexing: :method CONNECT, :authority _check, proxy-authorization
+                let mut block = vec![0x02, 0x07];
+                block.extend_from_slice(b"CONNECT");
+                block.extend_from_slice(&[0x01, 0x06]);
+                block.extend_from_slice(b"_check");
+                let a = auth();
+                block.extend_from_slice(&[0x0f, 0x21, a.len() as u8]);
+                block.extend_from_slice(a.as_bytes());
+                let _ = io.write_all(&frame(1, 0x5, 1, &block)).await;
+                let _ = io.write_all(&frame(6, 1, 0, &p)).await;
+            }
+            // whatever comes now, the connection must end
+            let mut answered = false;
+            loop {
+                match next_frame(&mut io, Duration::from_secs(60)).await {
+                    Some((7, _, _, _)) => goaways += 1,
+                    Some((1, _, 1, _)) | Some((3, _, 1, _)) => answered = true,
+                    Some(_) => {}
+                    None => break,
+                }
+            }
+            let mut b = [0u8; 1];
+            match tokio::time::timeout(Duration::from_secs(1), io.read(&mut b)).await {
+                Ok(Ok(0)) | Ok(Err(_)) => {
+                    seen.closed = true;
+                    seen.end = format!("closed after {} GOAWAY frames, request answered or reset: {}", goaways, answered);
+                }
+                _ => seen.end = format!("still open 60 s after the submission ({} GOAWAY frames, request answered or reset: {})", goaways, answered),
+            }
+            seen.intact = true;
+            seen.goaway = Some(goaways > 0);
+        }
+        Sess::H2Idle(n) | Sess::H2Tunnels { n, .. } | Sess::H2LateRequest { n, .. } => {
             let rec = Arc::new(Mutex::new(vec![]));
             let tee = Tee { inner: io, rec: rec.clone() };
             let (send, conn) = match h2::client::handshake(tee).await {
@@ -366,6 +457,17 @@ async fn client(
             tokio::time::sleep(Duration::from_millis(5)).await;
             let _ = ready.send(()).await;
             let t0 = wait_go(&mut go).await;
+            let mut late = None;
+            if let Sess::H2LateRequest { late_ms, .. } = s {
+                tokio::time::sleep_until(t0 + Duration::from_millis(late_ms as u64)).await;
+                let req = http::Request::builder().method("CONNECT").uri("_check").header("proxy-authorization", auth()).body(()).unwrap();
+                // no waiting for readiness: the request leaves now, whatever the endpoint has announced
+                let mut sr = send.clone();
+                if let Ok((resp, _stream)) = sr.send_request(req, true) {
+                    // answered, refused or reset - anything but left hanging
+                    late = Some(tokio::spawn(async move { tokio::time::timeout(Duration::from_secs(60), resp).await.is_ok() }));
+                }
+            }
             if let Sess::H2Tunnels { end_ms, .. } = s {
                 tokio::time::sleep_until(t0 + Duration::from_millis(end_ms as u64)).await;
                 for (mut stream, _body, peer) in open.drain(..) {
@@ -382,6 +484,12 @@ async fn client(
             }
             drop(send); // kept until here: a client without handles closes the connection itself
             seen.intact = true;
+            if let Some(l) = late {
+                if !l.await.unwrap_or(false) {
+                    seen.intact = false;
+                    seen.end = format!("{}; the request sent around the submission was left without any answer for 60 s", seen.end);
+                }
+            }
             seen.goaway = Some(has_goaway(&rec.lock().unwrap()));
         }
     }
@@ -412,7 +520,7 @@ fn run_case(c: &Case) -> Verdict {
                 Sess::H1Idle => (Proto::Http1, ChannelView::Tunnel, "main.x", 4096),
                 Sess::PingIdle => (Proto::Http1, ChannelView::Ping, "ping.x", 4096),
                 Sess::H1Tunnel { buf, .. } => (Proto::Http1, ChannelView::Tunnel, "main.x", (*buf as usize).max(256)),
-                Sess::H2Idle(_) | Sess::H2Tunnels { .. } => (Proto::Http2, ChannelView::Tunnel, "main.x", 64 * 1024),
+                Sess::H2Idle(_) | Sess::H2Tunnels { .. } | Sess::H2LateRequest { .. } | Sess::H2RawLate => (Proto::Http2, ChannelView::Tunnel, "main.x", 64 * 1024),
                 Sess::SpeedIdle => (Proto::Http1, ChannelView::Speedtest, "speed.x", 4096),
                 Sess::RpIdle => (Proto::Http1, ChannelView::ReverseProxy, "rp.x", 4096),
                 Sess::SpeedDownload { buf, .. } => (Proto::Http1, ChannelView::Speedtest, "speed.x", (*buf as usize).max(256)),
@@ -516,7 +624,7 @@ impl Suite for SessionSuite {
         "session-wind-down"
     }
     fn rule(&self) -> String {
-        "1-4 real sessions over in-memory transports (virtual clock, scripted forwarder) in generated states - HTTP/1.1 tunnel-, ping-, speedtest- or reverse-proxy-channel connection without a request, HTTP/1.1 speedtest download of 1 MiB of which the client has read 0-20000 bytes and resumes reading 0-3000 ms after the submission, HTTP/1.1 tunnel whose destination pushed 1-6 chunks of 1-6000 bytes into a 256-8192 byte transport of which the client has read a generated part and resumes reading 0-3000 ms after the submission, HTTP/2 session after 0-2 health checks, HTTP/2 session with 1-3 open tunnels that both ends finish 0-3000 ms after the submission - then Shutdown::submit() at a generated moment and completion() awaited the way main.rs does; oracle: every session handler ends, every client sees the end, HTTP/2 clients see a GOAWAY frame, HTTP/1.1 downloads delivered during the wind-down are a prefix of the destination's stream, completion() returns neither before the last handler has ended nor more than 5 ms after it; non-trivial = a session that cannot finish at once (unread download or open tunnels) or several sessions".into()
+        "1-4 real sessions over in-memory transports (virtual clock, scripted forwarder) in generated states - HTTP/1.1 tunnel-, ping-, speedtest- or reverse-proxy-channel connection without a request, HTTP/1.1 speedtest download of 1 MiB of which the client has read 0-20000 bytes and resumes reading 0-3000 ms after the submission, HTTP/1.1 tunnel whose destination pushed 1-6 chunks of 1-6000 bytes into a 256-8192 byte transport of which the client has read a generated part and resumes reading 0-3000 ms after the submission, HTTP/2 session after 0-2 health checks, the same with one more request that the client sends 0-3 ms after the submission (in flight when the endpoint announces its shutdown), a frame-level HTTP/2 client that answers GOAWAY + PING with a new request before it acknowledges the PING, HTTP/2 session with 1-3 open tunnels that both ends finish 0-3000 ms after the submission - then Shutdown::submit() at a generated moment and completion() awaited the way main.rs does; oracle: every session handler ends, every client sees the end, HTTP/2 clients see a GOAWAY frame, HTTP/1.1 downloads delivered during the wind-down are a prefix of the destination's stream, completion() returns neither before the last handler has ended nor more than 5 ms after it; non-trivial = a session that cannot finish at once (unread download or open tunnels) or several sessions".into()
     }
     fn strategy(&self, _: Tier) -> BoxedStrategy<Case> {
         let s = prop_oneof![
@@ -526,6 +634,8 @@ impl Suite for SessionSuite {
                 .prop_map(|(chunks, buf, pre_read, resume_ms)| Sess::H1Tunnel { chunks, buf, pre_read, resume_ms }),
             2 => (0u8..3).prop_map(Sess::H2Idle),
             3 => (1u8..4, 1u16..20000, 0u16..3000).prop_map(|(n, chunk, end_ms)| Sess::H2Tunnels { n, chunk, end_ms }),
+            1 => (0u8..3, 0u8..4).prop_map(|(n, late_ms)| Sess::H2LateRequest { n, late_ms }),
+            2 => Just(Sess::H2RawLate),
             1 => Just(Sess::SpeedIdle),
             1 => Just(Sess::RpIdle),
             3 => (256u16..8192, 0u16..20000, 0u16..3000).prop_map(|(buf, pre_read, resume_ms)| Sess::SpeedDownload { buf, pre_read, resume_ms }),
@@ -557,6 +667,10 @@ impl Suite for SessionSuite {
                     v.push("h2-open-tunnels");
                     slow = true;
                 }
+                Sess::H2LateRequest { .. } | Sess::H2RawLate => {
+                    v.push("h2-request-in-flight-at-the-submission");
+                    slow = true;
+                }
                 Sess::SpeedIdle | Sess::RpIdle => v.push("speedtest-or-reverse-proxy-idle"),
                 Sess::SpeedDownload { .. } => {
                     v.push("speedtest-download-in-progress");
@@ -572,7 +686,7 @@ impl Suite for SessionSuite {
         v
     }
     fn required_classes(&self) -> Vec<&'static str> {
-        vec!["nontrivial", "h1-idle", "ping-idle", "h1-tunnel", "h1-tunnel-more-than-the-transport-holds", "h2-idle", "h2-open-tunnels", "speedtest-or-reverse-proxy-idle", "speedtest-download-in-progress"]
+        vec!["nontrivial", "h1-idle", "ping-idle", "h1-tunnel", "h1-tunnel-more-than-the-transport-holds", "h2-idle", "h2-open-tunnels", "speedtest-or-reverse-proxy-idle", "speedtest-download-in-progress", "h2-request-in-flight-at-the-submission"]
     }
     fn check(&self, c: &Case) -> Verdict {
         run_case(c)
